@@ -122,6 +122,12 @@ class Parked:
         try:
             rc = self.p.wait(timeout=timeout)
         except subprocess.TimeoutExpired:
+            # why did it not finish?  A tracee that is *still stopped* never got going again (a SIGCONT lost against strace's group-stop handling,
+            # seen on loaded machines): that is the harness's problem and says nothing about ergo.  One that runs or sleeps is ergo hanging.
+            try:
+                never_resumed = bool(self.tracee) and self._state(self.tracee) in ("T", "t")
+            except Exception:
+                never_resumed = False
             for c in self._children():
                 try:
                     os.kill(c, signal.SIGKILL)
@@ -137,6 +143,8 @@ class Parked:
         steps = strace.parse(open(self.out.name).read(), self.store)
         os.unlink(self.out.name)
         res = {"exit": rc, "stdout": out, "stderr": err, "steps": steps}
+        if rc == -9 and locals().get("never_resumed"):
+            res["tracer_error"] = "the tracee was still stopped when the harness gave up waiting (lost SIGCONT)"
         # strace's own failures (e.g. "strace: ptrace(PTRACE_LISTEN,…): Input/output error" when a CONT races its group-stop handling)
         # replace the tracee's exit status by strace's: such a run says nothing about ergo
         if any(l.startswith("strace: ") for l in err.splitlines()):
